@@ -36,6 +36,8 @@
                            first message (a Subscribe between two messages replays the later ones AND gets them live)
      MutDropLogEarly       Close drops the message log before it has waited for the subscriptions (a replay in
                            progress then reads an entry of a log that is gone: index out of range)
+     MutTearIsClosed       the tear-down goroutine of a subscription whose context ended asks isClosed() (closedLock) before it
+                           goes on -- Close holds that lock while it waits for the tear-down goroutines (seed C07-17)
      MutBatchNoWait        a blocking multi-message Publish hands all messages over before it waits for acks
                            (the next message is receivable before the previous one was acked)          *)
 EXTENDS Naturals, Sequences, FiniteSets, TLC
@@ -49,7 +51,7 @@ CONSTANTS Blocking, Persistent, Buf,
           Republish,           \* Republish[s] = message the consumer of s publishes before settling, or "none"
           NackBudget,          \* how many Nacks the consumers may issue altogether
           DoClose, Cancels,    \* Cancels \subseteq Subs whose context may be cancelled
-          LegacyHoldLocks, LegacyNilLog, MutPersistOutsideLock, MutBatchPersistFirst, MutBatchNoWait, MutDropLogEarly
+          LegacyHoldLocks, LegacyNilLog, MutPersistOutsideLock, MutBatchPersistFirst, MutBatchNoWait, MutDropLogEarly, MutTearIsClosed
 
 None == "none"
 NoT == <<"none">>
@@ -251,9 +253,18 @@ Cancel(s) ==
   /\ s \in Cancels /\ ~cancelled[s] /\ pc[Tear(s)] # "off" /\ cancelled' = [cancelled EXCEPT ![s] = TRUE]
   /\ UNCHANGED <<pc, pm, closev, lockv, reg, snap, sent, sstate, settle, out, outClosed, sClosing, sClosed, sendMu, got, persisted, logNil, nacksLeft, histv>>
 
+\* the goroutine wakes on the subscription's context or on the Pub/Sub's closing signal (when both are there, on either)
 TWake(s) ==
   LET t == Tear(s) IN
-  /\ pc[t] = "T_wait" /\ (cancelled[s] \/ closing)
+  /\ pc[t] = "T_wait"
+  /\ \/ /\ (IF MutTearIsClosed THEN closing ELSE (cancelled[s] \/ closing))
+        /\ sClosing' = [sClosing EXCEPT ![s] = TRUE] /\ Goto(t, "T_sendmu")
+     \/ /\ MutTearIsClosed /\ cancelled[s]                     \* woken by its context: asks isClosed() first
+        /\ Goto(t, "T_isclosed") /\ UNCHANGED sClosing
+  /\ UNCHANGED <<pm, closev, lockv, reg, snap, sent, sstate, settle, out, outClosed, sClosed, sendMu, cancelled, got, persisted, logNil, nacksLeft, histv>>
+TIsClosed(s) ==
+  LET t == Tear(s) IN
+  /\ pc[t] = "T_isclosed" /\ closedMu = NoT                    \* (lock, look, unlock)
   /\ sClosing' = [sClosing EXCEPT ![s] = TRUE] /\ Goto(t, "T_sendmu")
   /\ UNCHANGED <<pm, closev, lockv, reg, snap, sent, sstate, settle, out, outClosed, sClosed, sendMu, cancelled, got, persisted, logNil, nacksLeft, histv>>
 
@@ -344,7 +355,7 @@ XWait ==
 
 Next ==
   \/ \E t \in PubThreads : PCheck(t) \/ PRLock(t) \/ PRAdmitted(t) \/ PTmu(t) \/ PPersistSend(t) \/ PWait(t) \/ PUnlock(t) \/ PNext(t) \/ PRet(t)
-  \/ \E s \in Subs : SStart(s) \/ SAnnounce(s) \/ SRegister(s) \/ SSnapshot(s) \/ SReplay(s) \/ Cancel(s) \/ TWake(s) \/ TCloseOut(s) \/ TAnnounce(s) \/ TRemove(s)
+  \/ \E s \in Subs : SStart(s) \/ SAnnounce(s) \/ SRegister(s) \/ SSnapshot(s) \/ SReplay(s) \/ Cancel(s) \/ TWake(s) \/ TIsClosed(s) \/ TCloseOut(s) \/ TAnnounce(s) \/ TRemove(s)
                      \/ CRecv(s) \/ CAck(s) \/ CNack(s)
   \/ \E x \in Senders : SendLock(x) \/ SendLoop(x) \/ SendWait(x)
   \/ XStart \/ XWait
